@@ -47,6 +47,10 @@ func main() {
 			genC01(rng, *n, *tier)
 		case "C02":
 			genC02(rng, *n, *tier)
+		case "C03":
+			genC03(rng, *n, *tier)
+		case "C04":
+			genC04(rng, *n, *tier)
 		case "C05":
 			genC05(rng, *n, *tier)
 		case "C06":
